@@ -344,4 +344,22 @@ theorem fixed_digits_err (m p : Nat) :
     ((roundNE (magVal m * pow10 p) : Int) : Rat) ≤ magVal m * pow10 p + 1/2 :=
   roundNE_err _
 
+/-- Multiplication by a non-negative finite float is monotone. -/
+theorem mul_mono_left {x x' y : F64} (hx : x.isFinite = true) (hx' : x'.isFinite = true)
+    (hy : y.isFinite = true) (hpos : 0 ≤ y.toRat) (h : x.toRat ≤ x'.toRat) :
+    le (mul x y) (mul x' y) = true := by
+  rw [mul_finite hx hy, mul_finite hx' hy]
+  exact ofRatS_le_ofRatS _ _ (Rat.mul_le_mul_of_nonneg_right h hpos)
+
+/-- Subtraction is monotone in the minuend and antitone in the subtrahend. -/
+theorem sub_mono {x x' y y' : F64} (hx : x.isFinite = true) (hx' : x'.isFinite = true)
+    (hy : y.isFinite = true) (hy' : y'.isFinite = true) (h : x.toRat ≤ x'.toRat) (h2 : y'.toRat ≤ y.toRat) :
+    le (sub x y) (sub x' y') = true := by
+  rw [sub_finite hx hy, sub_finite hx' hy']
+  exact ofRatS_le_ofRatS _ _ (by grind)
+
+/-- `float64(·)` of integers is monotone. -/
+theorem ofInt_mono {a b : Int} (h : a ≤ b) : le (ofInt a) (ofInt b) = true :=
+  ofRat_mono (Rat.intCast_le_intCast.mpr h)
+
 end Rare.F64
